@@ -31,3 +31,4 @@ package reverse
 //@   requires forall(k, 0, len(input), input[k] != nil)
 //@   modifies analysis.Token.Term
 //@   ensures result == input
+//@   loop 0: invariant forall(k, 0, len(input), input[k] != nil)
